@@ -231,8 +231,8 @@ fn fz_reply(u: &mut Unstructured) -> AResult<Reply> {
         8..=11 => {
             let x: u16 = u.arbitrary()?;
             Body::Lt401 {
-                algs: (x % 8) as u8,
-                anon: x & 8 != 0,
+                algs: (x % 10) as u8,
+                anon: x & 0x400 != 0,
                 cookie: x & 16 != 0,
                 realm: (x >> 5 & 3) as u8,
                 nonce: ((x >> 7) % 9) as u8,
